@@ -39,11 +39,13 @@ def check(ctx: Ctx) -> None:
         for fi in (f_recv, f_setcb):
             cfg = build_cfg(repo, fi, Oracle(repo, fi, precise=True))
             for t in cfg.nodes:
-                if t.kind == "test" and isinstance(t.ast, ast.Compare) and unparse(t.ast.comparators[0]) == "ENDMARKER" and isinstance(t.ast.ops[0], ast.Is) and t.id in cfg.live():
+                if t.kind == "test" and isinstance(t.ast, ast.Compare) and len(t.ast.ops) == 1 and unparse(t.ast.comparators[0]) == "ENDMARKER" \
+                        and isinstance(t.ast.ops[0], (ast.Is, ast.IsNot)) and t.id in cfg.live():
                     n += 1
                     var = unparse(t.ast.left)
+                    em_label = "true" if isinstance(t.ast.ops[0], ast.Is) else "false"
                     puts = cfg_nodes_with_call(cfg, lambda c: callee_attr(c) == "put" and c.args and unparse(c.args[0]) in (var, "ENDMARKER"))
-                    starts = [m for (m, l) in cfg.succ[t.id] if l == "true"]
+                    starts = [m for (m, l) in cfg.succ[t.id] if l == em_label]
                     p = cfg.must_pass(starts, [cfg.exit.id, cfg.raise_exit.id], {x.id for x in puts})
                     ob.site(fi, t.ast, "ENDMARKER taken from the queue is put back before leaving", puts=[x.line for x in puts])
                     if p is not None:
@@ -190,10 +192,10 @@ def check(ctx: Ctx) -> None:
         cfg = build_cfg(repo, fd, Oracle(repo, fd, precise=True))
         consts = repo.cls("Message").consts
         for has_cb in (True, False):
-            base = Facts(repo, fd, {})
+            base = Facts(repo, fd, {}, expand_locals=True)
             for k, v in (("self.gateway is None", False), ("self._closed", False), ("self._receiveclosed.is_set()", False), ("Message is None", False),
                          ("self._items is None", has_cb)):
-                base.set_atom(k, v)
+                base.assume_src(k, v)
             k = 0
             for path, facts in feasible_paths(repo, fd, cfg, base, kill_on_store=False):
                 if path[-1][0] != cfg.exit.id:
@@ -201,12 +203,23 @@ def check(ctx: Ctx) -> None:
                 k += 1
                 code = None
                 sent = False
+                codes: dict[str, object] = {}
                 for nid, _ in path:
                     nd = cfg.nodes[nid]
-                    if isinstance(nd.ast, ast.Assign) and unparse(nd.ast.targets[0]) == "msgcode":
-                        code = repo.fold_in(nd.ast.value, fd)
-                    if nd.ast is not None and any(callee_attr(c) == "_send" and unparse(c.args[0]) == "msgcode" and unparse(c.args[1]) == "self.id" for c in calls_in_node(nd)):
-                        sent = True
+                    if isinstance(nd.ast, ast.Assign) and isinstance(nd.ast.targets[0], ast.Name):
+                        v = nd.ast.value
+                        if isinstance(v, ast.IfExp):
+                            tv = facts.eval(v.test)
+                            v = v.body if tv is True else (v.orelse if tv is False else v)
+                        codes[nd.ast.targets[0].id] = repo.fold_in(v, fd)
+                    for c in (calls_in_node(nd) if nd.ast is not None else []):
+                        if callee_attr(c) == "_send" and len(c.args) >= 2 and unparse(c.args[1]) == "self.id":
+                            a0 = c.args[0]
+                            if isinstance(a0, ast.IfExp):
+                                tv = facts.eval(a0.test)
+                                a0 = a0.body if tv is True else (a0.orelse if tv is False else a0)
+                            code = codes.get(a0.id) if isinstance(a0, ast.Name) and a0.id in codes else repo.fold_in(a0, fd)
+                            sent = True
                 want = consts["CHANNEL_LAST_MESSAGE"] if has_cb else consts["CHANNEL_CLOSE"]
                 ob.site(fd, fd.node, f"opened channel dropped (callback installed: {has_cb})", sent=sent, code=code)
                 if not sent or code != want:
@@ -218,7 +231,7 @@ def check(ctx: Ctx) -> None:
     with ctx.obligation("C03.g", "same-stream") as ob:
         callers = sorted({f.short for f, _c in repo.callsites_flat(f"{GB}.Message.to_io")})
         ob.site(repo.func(f"{GB}.Message.to_io"), None, "to_io callers", callers=callers)
-        if callers != ["BaseGateway._send", "serve_proxy_io"]:
+        if "BaseGateway._send" not in callers or set(callers) - {"BaseGateway._send", "serve_proxy_io"}:
             ob.violation(repo.func(f"{GB}.Message.to_io"), None, f"Message.to_io is called from {callers}: frames could bypass the single ordered send path", construct=f"callers {callers}")
         fsend = repo.func(f"{GB}.BaseGateway._send")
         for c in repo.calls_in(fsend):
